@@ -454,6 +454,11 @@ class GameCoordinator:
                 agent_name = action.parameters["agent_info"].name
                 agent_role = action.parameters["agent_info"].role
                 if agent_role in self.ALLOWED_ROLES:
+                    # a reset agreed on by the current players must finish before a new player is added,
+                    # otherwise the new player would be reset together with them right after it was answered
+                    while self._reset_event.is_set():
+                        async with self._reset_done_condition:
+                            await self._reset_done_condition.wait()
                     # add agent to the world
                     new_agent_game_state = await self.register_agent(agent_addr, agent_role, self._starting_positions_per_role[agent_role])
                     if new_agent_game_state: # successful registration
